@@ -567,8 +567,35 @@ def r5_existing_target_refused_first(repo=None):
                             "reference tree)" % fn.name)
     import re as _re
 
+    # which file a test probes: the composition of the path buffer at the test (clib.build_string), with the function's own
+    # sub-directory / base name parameters identified with the writer's fields they are copied to when the file is entered
+    # (strcpy(obj->basename, basename); sub_directory is `subdir` by the strcmp test or by digital_rf_create_new_directory(obj,
+    # subdir)) - so a second test on a buffer of another name, built from the fields, is seen to probe the same file
+    params = [p_.name for p_ in fn.children if p_.kind == "ParmVarDecl"]
+    same = {}
+    if len(params) >= 3:
+        same = {"$" + params[1]: "<sub_directory>", "$" + params[2]: "<basename>"}
+
     def probed(n_):
-        return {_re.sub(r"\s", "", c.args[0].nsrc) for c in n_.ast.calls(("access", "stat", "lstat")) if c.args}
+        out = set()
+        for c in n_.ast.calls(("access", "stat", "lstat")):
+            if not c.args:
+                continue
+            text = _re.sub(r"\s", "", c.args[0].nsrc)
+            try:
+                pieces, _seen = clib.build_string(fn, c.args[0].path(), before=c)
+                sh = clib.shape(pieces)
+                if not sh or any(x.startswith("?") for x in sh):
+                    raise AnalysisError("composition not followed")
+                canon = []
+                for x in sh:
+                    for a_, b_ in same.items():
+                        x = _re.sub(_re.escape(a_) + r"\b", b_, x)
+                    canon.append(x)
+                out.add("".join(canon))
+            except AnalysisError:
+                out.add(text)
+        return out
     for n in tests:
         before = [(e_, what) for e_, what in effects if e_.id != n.id and n.id in g.reach([e_.id], skip_labels=("back",))]
         site = "%s:%s %s `%s`" % (LIB, n.line, fn.name, n.label[:60])
